@@ -112,7 +112,7 @@ fn weights(p: Profile) -> &'static [(Code, u32)] {
         ],
         Profile::Headroom => &[
             (Insert, 34), (Remove, 14), (Retain, 4), (Entry, 8), (ShrinkToFit, 6), (ShrinkTo, 8), (Reserve, 8), (TryReserve, 3),
-            (CloneSwap, 2), (Probe, 5), (DrainFilter, 2), (Clear, 1),
+            (CloneSwap, 2), (CloneFrom, 3), (Probe, 5), (DrainFilter, 2), (Clear, 1),
         ],
         Profile::Entry => &[
             (Insert, 20), (Remove, 8), (Entry, 30), (RawEntryMut, 26), (RawEntry, 4), (Get, 3), (Retain, 1), (ShrinkToFit, 1), (Reserve, 1),
@@ -434,7 +434,17 @@ impl Gen {
                     l.push(if self.rng.chance(1, 2) { self.rng.below(self.keyspace) } else { 5_000_000 + i as u64 });
                     l.push(self.rng.below(1000));
                 }
-                Op::n(CloneFrom, *self.rng.pick(&[0, 0, 3, 7, 14, 28])).with_v(self.rng.below(6 * 4)).with_list(l)
+                // destination capacities around the source's main-table length: hashbrown's
+                // clone_from re-uses a destination allocation that fits the main table only
+                let st = mon.state();
+                let ml = st.main.len as u64;
+                let total = mon.map.len() as u64;
+                let caps = [0, 0, 3, 7, 14, 28, ml, ml + 1, ml.saturating_sub(1), (ml + total) / 2, total, total.saturating_sub(1)];
+                let cap = *self.rng.pick(&caps);
+                if self.rng.chance(1, 3) {
+                    l.clear();
+                }
+                Op::n(CloneFrom, cap).with_v(self.rng.below(6 * 4)).with_list(l)
             }
             _ => Op::new(FullCheck),
         }
